@@ -309,21 +309,29 @@ def main():
         return orig_privval(val)
 
     def make_alloc_hook(orig):
-        def hooked(val):
+        def hooked(val, *rest, **kw):
             if state["active"] and forge is not None and is_own():
                 k = state["k"]
                 state["k"] += 1
                 if k < len(forge) and forge[k] is not None:
                     val = int(forge[k])
-            return orig(val)
+            return orig(val, *rest, **kw)
         return hooked
 
     if forge is not None:
-        hooked = make_alloc_hook(rt.PrivVal)
-        for m in list(sys.modules.values()):
-            if m is not None and getattr(m, "__name__", "").startswith("pysnark") and getattr(m, "PrivVal", None) is rt.PrivVal and m is not rt:
-                m.PrivVal = hooked
-        rt.PrivVal = hooked
+        # allocation sites: PrivVal itself and the contracted callees that merely allocate a witness
+        sites = [(rt, "PrivVal")]
+        for K2 in ct.REGISTRY.values():
+            if K2.witness_args and ":" in K2.name and "." not in K2.name.split(":")[1] and "#" not in K2.name:
+                mname, fname = K2.name.split(":")
+                if mname in sys.modules and fname != "PrivVal" and hasattr(sys.modules[mname], fname) and not fname.startswith("Pub"):
+                    sites.append((sys.modules[mname], fname))
+        for owner, fname in sites:
+            orig_f = getattr(owner, fname)
+            hooked = make_alloc_hook(orig_f)
+            for m in list(sys.modules.values()):
+                if m is not None and getattr(m, "__name__", "").startswith("pysnark") and getattr(m, fname, None) is orig_f:
+                    setattr(m, fname, hooked)
 
     def run(forging):
         reset()
